@@ -1,0 +1,21 @@
+//go:build verif
+
+package compile
+
+// Contracts for the verification machinery in /verif (comment-only file;
+// excluded from every build without the "verif" tag).
+
+// C03: "the predeclared numeric ranges" — the bounds handed to mkIntRange by the
+// initialiser of predefinedRanges are exactly rows of the table in
+// doc/ref/spec.md §Predeclared identifiers (rune 0..0x10FFFF, intN -2^(N-1)..2^(N-1)-1,
+// uintN 0..2^N-1).
+//@ spec func legalIntRange(a string, b string) bool { (a == "0" && b == "1114111") || (a == "-128" && b == "127") || (a == "-32768" && b == "32767") || (a == "-2147483648" && b == "2147483647") || (a == "-9223372036854775808" && b == "9223372036854775807") || (a == "-170141183460469231731687303715884105728" && b == "170141183460469231731687303715884105727") || (a == "0" && b == "255") || (a == "0" && b == "65535") || (a == "0" && b == "4294967295") || (a == "0" && b == "18446744073709551615") || (a == "0" && b == "340282366920938463463374607431768211455") }
+
+//@ func mkIntRange
+//@   assumed A-int: builds int & >=a & <=b from the two numerals (parseInt is the literal parser)
+//@   requires legalIntRange(a, b)
+
+//@ func init
+//@   may_panic
+//@   nocheck bounds frame
+//@   assigns heap
